@@ -63,6 +63,12 @@ RULE = ("start arrays of 1..5 rows x 1..5 small integers (rectangular and not; n
         "scalar+vector / n against 1 / 1 against n (NumPy broadcasting of the two index vectors), dealt from a deck; element "
         "values are distinct (0..n-1), so a write or read that lands in another row shows.  The general stream also draws "
         "a[[r..], [c]] = v and a[[r], [c..]] = v (index lists of different lengths, one entry against n).  "
+        "(ix) mask histories: a mask is a ragged array of booleans with its own row layout, a[mask] = v writes a[r][c] for "
+        "every set mask[r][c]; masks computed as `a cmp k` at one point of the history and kept by the caller while a row is "
+        "replaced by a longer / shorter one or rows are appended, and masks computed on another array b whose rows are laid "
+        "out differently (or given as a ragged array of booleans), then a[mask] = scalar / flat vector / RaggedArray of "
+        "ragged rows / nested lists and a[mask] op= k; set elements outside the array: IndexError; the mask must read the "
+        "same before and after.  "
         "non-trivial := >= 2 rows, >= 3 successful writes, at least one through the row view (route A) and one through "
         "the flat data (route B); or any case of the three streams with >= 1 successful write")
 TRUSTED = ["translator/tr_ragged_ops.py (+ tr_ragged.py for the flat-offset arithmetic): the write path's structure is "
@@ -1245,6 +1251,114 @@ def _stream_ixarg(rng, maxitems):
     return {"init": init, "items": items, "stream": "ixarg", "pool": pool}
 
 
+
+# ----------------------------------------------------------------------------- mask-history stream (round 3s, wave 5)
+# A mask is a ragged array of booleans with its OWN row layout; a[mask] = v writes a[r][c] for every (r, c) with
+# mask[r][c] set.  Masks kept by the caller across layout changes (a row replaced by one of another length, rows
+# appended) and masks computed on another array whose rows are laid out differently.
+def _mask_values(rng, mask, form, base=20):
+    """a value for a[mask] = v: scalar / flat vector / one row per mask row holding a set element (RaggedArray, nested lists)"""
+    per = [[base + rng.randint(0, 9) for b in row if b] for row in mask]
+    per = [x for x in per if x]
+    if form == "s" or not per:
+        return ["s", base + rng.randint(0, 9)]
+    if form == "v":
+        return ["v", [x for row in per for x in row]]
+    return [form, per]
+
+
+def _mask_of(rows, rng, want_true=True):
+    for _ in range(8):
+        c, k = rng.choice(list(CMP)), _val(rng)
+        mask = [[pycmp(c, x, k) for x in r] for r in rows]
+        if not want_true or 0 < sum(map(sum, mask)):
+            return c, k, mask
+    c, k = "ge", min(x for r in rows for x in r)
+    return c, k, [[True] * len(r) for r in rows]
+
+
+def _relayout(rng, cur, grow):
+    """one write that changes the row layout: a row replaced by a longer (grow) / shorter one, or rows appended"""
+    n = len(cur)
+    q = rng.random()
+    if q < 0.25:
+        vs = [[_val(rng) for _ in range(rng.randint(1, 4))] for _ in range(rng.randint(1, 2))]
+        return ["Append", vs, rng.choice(["ra", "lists"])]
+    i = rng.randrange(n - 1) if n > 1 and rng.random() < 0.8 else rng.randrange(n)     # mostly not the last row: later rows move
+    L = len(cur[i])
+    newL = L + rng.randint(1, 3) if grow or L == 1 else rng.randint(1, L - 1)
+    new = list(cur[i][:newL]) + [_val(rng) for _ in range(newL - L)] if rng.random() < 0.6 else [_val(rng) for _ in range(newL)]
+    if len(set(len(r) for r in cur)) > 1 and rng.random() < 0.6:
+        return ["SetRow", rng.choice([i, i - n]), ["v", new]]
+    return ["SetRows", ["li", [rng.choice([i, i - n])]], ["rows", [new]]]
+
+
+def _mask_writes(rng, items, cur, spec_of, mask):
+    forms = ["s", "v", "rows", "nested", "aug"]
+    rng.shuffle(forms)
+    if rng.random() < 0.4:
+        items.append({"t": "maskread", "spec": spec_of()})
+    for form in forms[:rng.randint(1, 3)]:
+        if form == "aug":
+            o = rng.choice(["add", "sub", "add", "mul"])
+            cur = _track(items, cur, ["AugMask", spec_of(), o, {"add": 100, "sub": 50, "mul": 2}[o]])
+        else:
+            cur = _track(items, cur, ["SetMask", spec_of(), _mask_values(rng, mask, form, rng.choice([20, 40, 60]))])
+        if rng.random() < 0.5:
+            items.append({"t": "maskread", "spec": spec_of()})     # what was written is what the same mask reads back
+        if rng.random() < 0.4:
+            items += _obs_reads(rng, cur)
+    return cur
+
+
+def _stream_mask(rng, maxitems):
+    n = rng.randint(2, 4)
+    rect = rng.random() < 0.25
+    L = rng.randint(1, 4)
+    rows = [[_val(rng) for _ in range(L if rect else rng.randint(1, 5))] for _ in range(n)]
+    init = {"kind": "rows", "rows": rows, "np": rng.random() < 0.5} if rng.random() < 0.5 \
+        else _flat_init(rows, rng.random() < 0.5)
+    items, cur = [], rows
+    for _ in range(rng.randrange(3)):
+        if rng.random() < 0.3:
+            items.append({"t": "obs", "q": _gen_obs(rng, cur)})
+        else:
+            cur = _track(items, cur, _gen_op(rng, cur, False))
+    for rnd in range(rng.randint(1, 1 + maxitems // 12)):
+        if rng.random() < 0.6:
+            # ---- stale mask: `mask = a cmp k` now, used after the layout changed
+            at = len(items)
+            c, k, mask = _mask_of(cur, rng)
+            grow = rng.random() < 0.8
+            if rng.random() < 0.25:              # the ordinary use first: same layout
+                cur = _track(items, cur, ["SetMask", {"mask": mask, "cmp": [c, k], "at": at}, ["s", _val(rng)]])
+            for _ in range(rng.randint(1, 2)):
+                cur = _track(items, cur, _relayout(rng, cur, grow))
+            if rng.random() < 0.3:
+                items += _obs_reads(rng, cur)
+            cur = _mask_writes(rng, items, cur, lambda: {"mask": mask, "cmp": [c, k], "at": at}, mask)
+        else:
+            # ---- foreign mask: computed on another array b whose rows are laid out differently
+            m = len(cur) if rng.random() < 0.7 else rng.randint(1, len(cur))
+            fit = rng.random() < 0.85            # every set element of the mask exists in a
+            lens = []
+            for r in range(m):
+                La = len(cur[r])
+                lens.append(rng.randint(1, La) if fit or rng.random() < 0.5 else La + rng.randint(1, 2))
+            if m > 1 and lens[:m - 1] == [len(x) for x in cur[:m - 1]]:
+                cand = [r for r in range(m - 1) if len(cur[r]) > 1]
+                if cand:
+                    r = rng.choice(cand)
+                    lens[r] = rng.randint(1, len(cur[r]) - 1)
+            rows2 = [[_val(rng) for _ in range(x)] for x in lens]
+            c, k, mask = _mask_of(rows2, rng)
+            how = rng.choice(["cmp", "cmp", "bools"])
+            spec = {"mask": mask, "cmp": None, "of": {"rows": rows2, "cmp": [c, k]}} if how == "cmp" else {"mask": mask, "cmp": None}
+            cur = _mask_writes(rng, items, cur, lambda: dict(spec), mask)
+        items += _obs_reads(rng, cur)
+    return {"init": init, "items": items, "stream": "mask"}
+
+
 # ----------------------------------------------------------------------------- index dtypes / broadcasting stream
 IXR = {"int8": (-2 ** 7, 2 ** 7 - 1), "uint8": (0, 2 ** 8 - 1), "int16": (-2 ** 15, 2 ** 15 - 1),
        "uint16": (0, 2 ** 16 - 1), "int32": (-2 ** 31, 2 ** 31 - 1), "uint32": (0, 2 ** 32 - 1),
@@ -1433,6 +1547,8 @@ def generate(rng, tier):
     for _ in range(150 if tier == "quick" else 1200):
         cases.append(_stream_nan(rng, maxitems))
     cases += _ixwide_cases(rng, 76, 8) if tier == "quick" else _ixwide_cases(rng, 760, 48)
+    for _ in range(90 if tier == "quick" else 800):
+        cases.append(_stream_mask(rng, maxitems))
     return cases
 
 
@@ -1559,6 +1675,30 @@ def _pool_snap(obj):
     return [x.tolist() if isinstance(x, np.ndarray) else int(x) for x in obj]
 
 
+_MASK_NOTES = []    # aliasing remarks made while a mask item ran (collected by run_impl)
+_MASKS = [None]     # mask-history stream: per run, the masks the caller keeps {item index where computed: mask object}
+
+
+def _mask_snap(m):
+    return [[bool(x) for x in np.asarray(r).tolist()] for r in m]
+
+
+def _mask_object(a, spec, RaggedArray):
+    """the mask object of a SetMask / AugMask item and, when its content is known in advance, that content"""
+    if spec.get("at") is not None and _MASKS[0] is not None and spec["at"] in _MASKS[0]:
+        return _MASKS[0][spec["at"]]                               # computed earlier in the history, kept since (object, content then)
+    if spec.get("of"):
+        b = RaggedArray([list(r) for r in spec["of"]["rows"]])
+        return getattr(b, CMP[spec["of"]["cmp"][0]][1])(spec["of"]["cmp"][1]), spec["mask"]
+    if spec["cmp"]:
+        return getattr(a, CMP[spec["cmp"][0]][1])(spec["cmp"][1]), None
+    return RaggedArray([list(map(bool, r)) for r in spec["mask"]]), spec["mask"]
+
+
+class MaskAltered(Exception):
+    pass
+
+
 def _do_op(a, op, RaggedArray, ixobj=None):
     """executes one write on the real object; returns the RaggedArray value involved (if any)."""
     k = op[0]
@@ -1605,17 +1745,22 @@ def _do_op(a, op, RaggedArray, ixobj=None):
         return None
     if k in ("SetMask", "AugMask"):
         spec = op[1]
-        if spec["cmp"]:
-            m = getattr(a, CMP[spec["cmp"][0]][1])(spec["cmp"][1])
-        else:
-            m = RaggedArray([list(map(bool, r)) for r in spec["mask"]])
-        if k == "SetMask":
-            val, ra = _mk_value(op[2], RaggedArray)
-            a[m] = val
-            return ra
-        cur = a[m]
-        a[m] = getattr(cur, BIN[op[2]][1])(op[3])
-        return None
+        m, content = _mask_object(a, spec, RaggedArray)
+        if content is not None:
+            content = [[bool(x) for x in r] for r in content]
+            if _mask_snap(m) != content:
+                raise MaskAltered("before use the mask reads %s, when it was computed it read %s" % (_mask_snap(m), content))
+        try:
+            if k == "SetMask":
+                val, ra = _mk_value(op[2], RaggedArray)
+                a[m] = val
+                return ra
+            cur = a[m]
+            a[m] = getattr(cur, BIN[op[2]][1])(op[3])
+            return None
+        finally:
+            if content is not None and _mask_snap(m) != content:
+                _MASK_NOTES.append("operand altered: the mask %s handed to a[mask] = v reads %s afterwards" % (content, _mask_snap(m)))
     if k == "Append" and len(op) > 3:
         # dtype stream: every row in its own dtype (None: what NumPy makes of the Python list)
         rows, how, dts = op[1], op[2], op[3]
@@ -1732,7 +1877,22 @@ def run_impl(c):
             out["alias"].append("operand altered: the index arrays %s handed to %s are %s afterwards" % (
                 pool0[j], what, _pool_snap(pool[j])))
             pool0[j] = _pool_snap(pool[j])          # reported once per change
+    _MASKS[0] = {}
+    del _MASK_NOTES[:]
+    mask_at = {}
     for it in c["items"]:
+        if it["t"] == "op" and it["op"][0] in ("SetMask", "AugMask") and it["op"][1].get("at") is not None:
+            mask_at[it["op"][1]["at"]] = it["op"][1]["cmp"]
+        if it["t"] == "maskread" and it["spec"].get("at") is not None:
+            mask_at[it["spec"]["at"]] = it["spec"]["cmp"]
+    for idx, it in enumerate(c["items"]):
+        if idx in mask_at:
+            # `mask = a cmp k`: the caller computes a mask here and keeps it
+            try:
+                mobj = getattr(a, CMP[mask_at[idx][0]][1])(mask_at[idx][1])
+                _MASKS[0][idx] = (mobj, _mask_snap(mobj))          # content snapshotted now: plain Python values
+            except Exception:
+                pass
         before = _snap(a)
         if it["t"] == "poolread":
             # a read a[R, C] with the caller's index arrays, on the array itself or on a second array
@@ -1748,15 +1908,39 @@ def run_impl(c):
                 out["alias"].append("operand altered by a read through index arrays")
             steps.append(rec)
             continue
+        if it["t"] == "maskread":
+            rec = {}
+            try:
+                m, content = _mask_object(a, it["spec"], RaggedArray)
+                if content is not None and _mask_snap(m) != [[bool(x) for x in row] for row in content]:
+                    out["alias"].append("operand altered: a mask kept by the caller reads %s, when it was computed it read %s" % (
+                        _mask_snap(m), content))
+                rec["val"] = [_cv(x) for x in np.asarray(a[m]).reshape(-1).tolist()]
+                if content is not None and _mask_snap(m) != [[bool(x) for x in row] for row in content]:
+                    out["alias"].append("operand altered: the mask %s handed to a[mask] reads %s afterwards" % (content, _mask_snap(m)))
+            except Exception as ex:
+                rec["err"] = _errkind(ex)
+                rec["msg"] = type(ex).__name__ + ": " + str(ex)[:120]
+            if _snap(a) != before:
+                out["alias"].append("operand altered by a read through a mask")
+            steps.append(rec)
+            continue
         if it["t"] == "op":
             rec = {}
             try:
                 ra = _do_op(a, it["op"], RaggedArray, pool[it["pool"]] if "pool" in it else None)
                 rec["e"] = None
+            except MaskAltered as ex:
+                ra = None
+                rec["e"] = "Reject"
+                rec["msg"] = "mask altered: " + str(ex)[:300]
+                out["alias"].append("operand altered: a mask kept by the caller changed (%s)" % str(ex)[:300])
             except Exception as ex:
                 ra = None
                 rec["e"] = _errkind(ex)
                 rec["msg"] = type(ex).__name__ + ": " + str(ex)[:120]
+            while _MASK_NOTES:
+                out["alias"].append(_MASK_NOTES.pop(0))
             rec.update(_snap(a))
             rec["reads"] = _reads(a)
             if "pool" in it:
@@ -1812,6 +1996,7 @@ def run_impl(c):
                 out["alias"].append("operand altered by %s" % it["q"][0])
             steps.append(rec)
     out["steps"] = steps
+    _MASKS[0] = None
     return out
 
 
@@ -1885,6 +2070,16 @@ def oracle(c, r):
         tag = "item %d %s" % (i, (it.get("op") or it.get("q") or [it["t"]])[0])
         if "pool" in it and it["t"] == "op":
             tag += " (index arrays of the caller, used before: %s)" % c["pool"][it["pool"]]
+        if it["t"] == "op" and it["op"][0] in ("SetMask", "AugMask") and (it["op"][1].get("at") is not None or it["op"][1].get("of")
+                                                                         or c.get("stream") == "mask"):
+            sp = it["op"][1]
+            tag += " through the mask %s (%s) on rows %s" % (
+                [[int(b) for b in row] for row in sp["mask"]],
+                "computed as a %s %d before item %d and kept" % (sp["cmp"][0], sp["cmp"][1], sp["at"]) if sp.get("at") is not None
+                else "computed as b %s %d on b = %s" % (sp["of"]["cmp"][0], sp["of"]["cmp"][1], sp["of"]["rows"]) if sp.get("of")
+                else "given as a ragged array of booleans", rows)
+            if it["op"][0] == "SetMask":
+                tag += " value %s" % (it["op"][2],)
         if it["t"] == "op" and "dtype" in rec:
             prev_dt = ([r.get("init_dtype")] + [x["dtype"] for x in r["steps"][:i] if "dtype" in x])[-1]
             tag += " %s(_data was %s, is %s)" % (
@@ -1925,6 +2120,18 @@ def oracle(c, r):
                                                            _sh(tgt) if len(tgt) < 40 else "<%d rows of lengths %d..%d>" % (
                                                                len(tgt), min(map(len, tgt)), max(map(len, tgt))),
                                                            got, rec.get("msg"), exp)))
+        elif it["t"] == "maskread":
+            sp = it["spec"]
+            try:
+                exp = [rows[r_][c_] for r_, c_ in _mask_cells(rows, sp["mask"])]
+            except Rej as ex:
+                exp = {"err": ex.kind}
+            got = rec["val"] if "val" in rec else {"err": rec.get("err")}
+            if got != exp:
+                out.append(("mask-read", "%s: a[mask] with the mask %s (%s) on rows %s gives %s (%s), the list-of-rows model %s" % (
+                    tag, [[int(b) for b in row] for row in sp["mask"]],
+                    "computed as a %s %d before item %d and kept" % (sp["cmp"][0], sp["cmp"][1], sp["at"]) if sp.get("at") is not None
+                    else "computed on b = %s" % sp["of"]["rows"] if sp.get("of") else "given as booleans", rows, got, rec.get("msg"), exp)))
         elif it["t"] == "selw":
             row = list(rows[it["r"]])
             row[it["c"]] = it["v"]
@@ -2104,7 +2311,7 @@ def _obs(q):
 
 def _coq_items(c):
     """the items the Coq trace follows (a write into a selection does not concern the array itself)"""
-    return [it for it in c["items"] if it["t"] not in ("selw", "poolread")]
+    return [it for it in c["items"] if it["t"] not in ("selw", "poolread", "maskread")]
 
 
 def _items(c):
@@ -2178,7 +2385,7 @@ def coq_check(c, r):
         c, r = _scaled(c, r)
     exp = ["(VRA %s)" % _slots(r["init"])]
     for it, rec in zip(c["items"], r["steps"]):
-        if it["t"] in ("selw", "poolread"):
+        if it["t"] in ("selw", "poolread", "maskread"):
             continue
         if it["t"] == "op":
             exp.append("(VStep %s %s)" % (copt(rec["e"], _err, "err"), _slots(rec)))
@@ -2373,6 +2580,11 @@ def tags(c, r):
                 t.add("pool-index-" + e["dt"])
             if any(x < 0 for x in e["rs"] + e["cs"]):
                 t.add("pool-index-negative")
+        if it["t"] == "maskread":
+            t.add("mask-read")
+            if "val" in rec and [len(row) for row in it["spec"]["mask"]] != curlens:
+                t.add("mask-read-layout-differs")
+            continue
         if it["t"] == "selw":
             if "sel" in rec:
                 t.add("selw-" + it["how"])
@@ -2390,6 +2602,27 @@ def tags(c, r):
                 t.add("rect-listbuilt-2dslice-rowread")
             continue
         k = it["op"][0]
+        if k in ("SetMask", "AugMask") and c.get("stream") == "mask":
+            sp = it["op"][1]
+            mlens = [len(row) for row in sp["mask"]]
+            kindm = "stale" if sp.get("at") is not None else "foreign"
+            if mlens != curlens:
+                t.add("mask-%s-layout-differs" % kindm)
+                flat_m = [p for p, b in enumerate(x for row in sp["mask"] for x in row) if b]
+                st = [sum(curlens[:q]) for q in range(len(curlens))]
+                inside = all(r_ < len(curlens) and c_ < curlens[r_] for r_, row in enumerate(sp["mask"]) for c_, b in enumerate(row) if b)
+                if not inside:
+                    t.add("mask-cell-outside-array")
+                if rec.get("e") is None and inside:
+                    flat_a = [st[r_] + c_ for r_, row in enumerate(sp["mask"]) for c_, b in enumerate(row) if b]
+                    if flat_a != flat_m:
+                        # the set elements sit at other flat positions in the array than in the mask
+                        t.add("mask-%s-positions-differ" % kindm)
+                        t.add("mask-positions-differ-" + ("aug" if k == "AugMask" else "val-" + it["op"][2][0]))
+            else:
+                t.add("mask-%s-same-layout" % kindm)
+            if sp.get("of"):
+                t.add("mask-foreign-from-comparison")
         if "lens" in rec:
             curlens = list(rec["lens"])
         if rec.get("e") is None and k in ("Set2D", "Aug2D") and it["op"][1][0] == "li" and it["op"][2][0] == "li" \
@@ -2448,4 +2681,8 @@ ESSENTIAL_TAGS = ["start-rect", "start-ragged", "ctor-rows", "ctor-flat", "ctor-
                   "rowless-then-not_cmp", "rowless-then-append", "rowless-then-set_all", "rowless-then-binself",
                   "stream-nan", "nan-in-data", "inf-in-data", "nan-cmp", "nan-cmpra", "nan-notcmp", "nan-maskset",
                   "nan-masksetra", "nan-maskget", "nan-scalar-left", "nan-scalar-right", "nan-scalar-nan"] + [
-                  "nan-op-" + o for o in CMP]
+                  "nan-op-" + o for o in CMP] + [
+                  "stream-mask", "mask-stale-layout-differs", "mask-foreign-layout-differs", "mask-stale-positions-differ",
+                  "mask-foreign-positions-differ", "mask-foreign-from-comparison", "mask-cell-outside-array",
+                  "mask-positions-differ-aug", "mask-positions-differ-val-s", "mask-positions-differ-val-v",
+                  "mask-positions-differ-val-rows", "mask-positions-differ-val-nested", "mask-read", "mask-read-layout-differs"]
